@@ -65,6 +65,8 @@ def class_traits(repo, cid):
 
 def run(ctx):
     repo, cg = ctx.repo, ctx.cg
+    ctx.rule('R19.7', 'name binding: every global name a function refers to is bound at module level or builtin, and every local is assigned on every path before it is read', floor=2)
+    ctx.rule('R19.6', 'every exactly resolved call binds against its callee\'s signature (no missing/unknown/surplus argument on any arm)', floor=1)
     ctx.rule('R19.1', 'documented section membership = class hierarchy (section S listed for entry point E <=> S in MRO(E))', floor=7)
     ctx.rule('R19.2', 'for every entry point and option, the sections carrying the option appear in the MRO in documented specificity order', floor=11)
     ctx.rule('R19.3', 'layering shape: reversed MRO, class defaults then the same-named disk section; files merged lowest priority first; cwd has highest priority; nested dicts merge key-wise', floor=6)
@@ -327,3 +329,7 @@ def run(ctx):
         ctx.inst('R19.5', CFGM + ':entrypoint_configurables', 'key %r' % k, ok,
                  'is the program name of a parser / passed to build_config directly' if ok else
                  'no console script runs a parser under this program name: the %s section can never take effect' % entry[k].split(':')[1], ec)
+    from ..signatures import call_compat
+    call_compat(ctx, 'R19.6', ['nbdime.config', 'nbdime.args'], 'option resolution aborts')
+    from ..names import name_binding
+    name_binding(ctx, 'R19.7', ['nbdime.config', 'nbdime.args'])
